@@ -32,10 +32,13 @@ def numeric_spellings(tier='quick'):
               ('lead0', '010', []), ('lead00', '0100', []), ('lead0_45', '055', []), ('hex', '0x1F', []), ('oct', '0o17', []), ('bin', '0b1010', []),
               ('typed_zero', '0%s' % t, []), ('typed_under', '1_0%s' % t, []),
               # expressions made of untyped literals only: they take the INNER type (not i32), which `>>`, `/`, `%` make visible
-              ('not_shr', '!0 >> 1', []), ('not_div', '!0 / 4', []), ('shl_shr', '(1 << 7) >> 7', []), ('rem', '(1 << 9) % 7', [])]
+              ('not_shr', '!0 >> 1', []), ('not_div', '!0 / 4', []), ('shl_shr', '(1 << 7) >> 7', []), ('rem', '(1 << 9) % 7', []),
+              # unary operators directly on a literal (a parser that folds signs must not take `!` for `-`)
+              ('not0', '!0', []), ('not7', '!7', []), ('notparen', '!(7)', [])]
         if signed:
             sp += [('neg5', '-5', []), ('negconst', '-%s' % K, [K]), ('negparen', '-(5)', []), ('parenneg', '(-5)', []),
-                   ('negcall', '-five_%s()' % t, ['five_' + t]), ('negunder', '-1_0', []), ('neglead0', '-0100', [])]
+                   ('negcall', '-five_%s()' % t, ['five_' + t]), ('negunder', '-1_0', []), ('neglead0', '-0100', []),
+                   ('negneg', '-(-5)', []), ('notneg', '!-5', []), ('negnot', '-!5', []), ('negparenneg', '-(-(5))', [])]
         for tag, src, names in sp:
             for kind in (['greater', 'less_or_equal'] if (tier == 'quick' and not tag.startswith('userpath')) else ['greater', 'greater_or_equal', 'less', 'less_or_equal']):
                 d = mk('sp_%s_%s_%s' % (t, kind, tag), 'int', t, validators=[Validator(kind, _b(src, t))], aux=names,
@@ -50,7 +53,7 @@ def numeric_spellings(tier='quick'):
               ('neginf2', '%s::NEG_INFINITY' % t, []), ('call', 'five_%s()' % t, ['five_' + t]), ('negcall', '-five_%s()' % t, ['five_' + t]),
               ('typed', '5.5%s' % t, []), ('arith', '2.0 * 3.0', []), ('const_arith', '%s / 4.0' % K, [K]), ('negzero', '-0.0', []),
               ('minpos', '%s::MIN_POSITIVE' % t, []), ('huge', '1e400', []), ('lead0', '010.5', []), ('lead0int', '0100', []), ('typed_zero', '0%s' % t, []),
-              ('computed', '0.1 + 0.2', []),
+              ('computed', '0.1 + 0.2', []), ('negneg', '-(-5.5)', []),
               ('userpath_max', 'limits_%s::MAX' % t, ['limits_' + t]), ('userpath_min', 'limits_%s::MIN' % t, ['limits_' + t])]
         for tag, src, names in sp:
             for kind in (['greater_or_equal', 'less'] if (tier == 'quick' and not tag.startswith('userpath')) else ['greater', 'greater_or_equal', 'less', 'less_or_equal']):
@@ -93,6 +96,20 @@ def numeric_spellings(tier='quick'):
         dm.note = 'mixed: built-in validators together with with/error (must be rejected; if accepted both the built-in rule and the custom function must be enforced)'
         out.append(dm)
         out.append(lay('validate_then_pred', 'validate(predicate = pred_%s, less = %s), derive(Debug, TryFrom)' % (t, hi), [], [vp, vhi], [pn]))
+        # several LITERAL rules of which one looks implied by the others (a generator that prunes "redundant"
+        # rules at expansion time must still enforce each written rule: NaN passes every bound but not `finite`)
+        if fl:
+            fin = Validator('finite')
+            ge, le = Validator('greater_or_equal', _b('0.0', t)), Validator('less_or_equal', _b('1.0', t))
+            out.append(lay('fin_ge_le_lit', 'validate(finite, greater_or_equal = 0.0, less_or_equal = 1.0), derive(Debug, TryFrom)', [], [fin, ge, le], []))
+            out.append(lay('ge_le_fin_lit', 'validate(greater_or_equal = 0.0, less_or_equal = 1.0, finite), derive(Debug, TryFrom)', [], [ge, le, fin], []))
+            out.append(lay('gt_fin_lt_lit', 'validate(greater = %s, finite, less = %s), derive(Debug, TryFrom)' % (lo, hi), [], [vlo, fin, vhi], []))
+            out.append(lay('fin_lt_lit', 'validate(finite, less = %s), derive(Debug, TryFrom)' % hi, [], [fin, vhi], []))
+        else:
+            out.append(lay('ge_gt_lit', 'validate(greater_or_equal = 0, greater = 5, less = 10), derive(Debug, TryFrom)', [],
+                           [Validator('greater_or_equal', _b('0', t)), Validator('greater', _b('5', t)), vhi], []))
+            out.append(lay('le_lt_pred_lit', 'validate(less_or_equal = 10, less = 10, predicate = pred_%s), derive(Debug, TryFrom)' % t, [],
+                           [Validator('less_or_equal', _b('10', t)), vhi, vp], [pn]))
         # closure spellings
         san_body = 'if x < 0.0 { -x } else { x }' if fl else 'if x > 50 { 50 } else { x }'
         pred_body = '*x != 7.0' if fl else '*x != 7'
